@@ -158,7 +158,7 @@ def vacuity_guards(ctx):
 
 def run(ctx):
     thorough = ctx.tier == 'thorough'
-    nmax = 24 if thorough else 10
+    nmax = 20 if thorough else 10
     rnd = random.Random(ctx.seed)
     ctx.functions += ['core.generate.utility.combine_cnf_with_requests', 'core.cnf.CNF.assert_k_of_n',
                       'core.cnf.CNF._inequality_assertion', 'core.cnf.CNF._make_same_length',
